@@ -718,6 +718,9 @@ func (vc *VC) applyContract(ins *ssa.Call, c *Contract, f *ssa.Function, sig *ty
 		if c.clauseMode(cl) != vc.modeName() {
 			continue // postconditions stated in the other integer mode are not used here (sound: fewer assumptions)
 		}
+		if strings.Contains(cl.Src, "ret(\"") {
+			continue // speaks about the callee's own calls: not visible to a caller
+		}
 		if cl.Mode == "ringax" {
 			vc.note("ring-level statement of %s [%s] taken from its limb-level contract (ringax)", shortKey(c.Key), cl.Label)
 		}
